@@ -57,7 +57,10 @@ Inductive varkind :=
 | KRecRows (excluded : list string)
 | KEnumRows.
 
-Inductive rtail := RClosed | RDyn | RVar (x : string).
+Inductive rtail :=
+| RClosed | RDyn | RVar (x : string)
+| RExcl (excl : list string).   (* only produced by Type::simplify: a generated tail variable bound
+                                   to $forall_record_tail_excluded_only [excl] *)
 Inductive etail := EClosed | EVar (x : string).
 Inductive dflavour := FType | FContract.     (* {_ : T}  vs  {_ | T} *)
 
@@ -96,14 +99,19 @@ Fixpoint member (T : ty) (v : dv) {struct T} : bool :=
   | TArrow _ _ => false
   | TRec rows tail =>
       (* a record that has every declared field, whose declared fields have the declared types,
-         and that has no other field unless the record type is open ([; Dyn]) *)
+         and that has no other field unless the record type is open ([; Dyn]); the internal tail
+         [RExcl excl] is open except for the field names in [excl] *)
       match v with
       | DRec fs =>
           forallb (fun r => has_key (fst r) fs) rows
           && forallb (fun f =>
                 (fix in_rows (rs : list (string * ty)) : bool :=
                    match rs with
-                   | [] => match tail with RDyn => true | _ => false end
+                   | [] => match tail with
+                           | RDyn => true
+                           | RExcl excl => negb (existsb (String.eqb (fst f)) excl)
+                           | _ => false
+                           end
                    | (k, t) :: rs' => if String.eqb (fst f) k then member t (snd f) else in_rows rs'
                    end) rows) fs
       | _ => false
